@@ -164,6 +164,40 @@ def wildcard_shadow_cases(rng, _n):
     return cases
 
 
+def eq_literal_text_cases(rng, _n):
+    """`==` / `!=` with expected expressions whose printed text contains blanks and `::` inside string
+    literals: the label must show the expression as written."""
+    import tgen
+    cases = []
+    k = 0
+    progs = [
+        ('== "net :: timeout"', "net::timeout", [('"net :: timeout"', "net :: timeout")]),
+        ('== "a  b :: c"', "a b::c", [('"a  b :: c"', "a  b :: c")]),
+        ('!= "x :: y"', "x :: y", [('"x :: y"', "x :: y")]),
+        ('== ["db", "pool"].join(" :: ")', "db::pool", [('["db", "pool"].join(" :: ")', "db :: pool")]),
+        ('== "Status :: Active"', "Status::Active", [('"Status :: Active"', "Status :: Active")]),
+        ('== String::from("p :: q")', "p::q", [('String::from("p :: q")', "p :: q")]),
+    ]
+    for (pat, val, ms) in progs:
+        for wrap in ("%s", "W { s: %s }", "Some(%s)"):
+            c = t3.Case()
+            c.id = k
+            k += 1
+            c.forms = {"eq-literal-text": 1}
+            c.perturbed = True
+            c.meanings = "(meanings %s)" % " ".join("(v %s (str %s))" % (tgen.hexs(tgen.squash(t)), tgen.hexs(v)) for t, v in ms)
+            sv = "(str %s)" % tgen.hexs(val)
+            if wrap == "%s":
+                t3.finish_case(c, "", "String", '"%s".to_string()' % val, sv, pat)
+            elif wrap.startswith("W"):
+                t3.finish_case(c, "#[derive(Debug)] pub struct W { pub s: String }", "W", 'W { s: "%s".to_string() }' % val,
+                               "(adt %s (names %s) (vals %s))" % (tgen.hexs("W"), tgen.hexs("s"), sv), wrap % pat)
+            else:
+                t3.finish_case(c, "", "Option<String>", 'Some("%s".to_string())' % val, "(adt %s (names) (vals %s))" % (tgen.hexs("Some"), sv), wrap % pat)
+            cases.append(c)
+    return cases
+
+
 def check(ck, aspect, theorems, t2_parts=("body", "status", "validity")):
     ck.prove(theorems)
     ck.build_harness("inproc")
@@ -216,7 +250,8 @@ def check(ck, aspect, theorems, t2_parts=("body", "status", "validity")):
     for (name, maker, what) in (("range-in-slice", range_in_slice_cases, "range-shaped slice elements next to the rest marker"),
                                 ("set-history", set_history_cases, "matching set assertions after earlier set assertions on the same thread"),
                                 ("map-wildcard-value", map_wild_cases, "map entries whose value pattern is `_`: the key is still required"),
-                                ("wildcard-struct-sibling", wildcard_shadow_cases, "a wildcard struct next to a sibling field of the same name")):
+                                ("wildcard-struct-sibling", wildcard_shadow_cases, "a wildcard struct next to a sibling field of the same name"),
+                                ("eq-literal-text", eq_literal_text_cases, "expected expressions with blanks and `::` inside string literals")):
         fam = t3.run_corpus(ck, name, 0, per_bin=40, positions=maker)
         stats, mism = t3.compare(ck, fam, name)
         for m in mism:
@@ -232,6 +267,9 @@ def check(ck, aspect, theorems, t2_parts=("body", "status", "validity")):
                 key, text = "wrong-entries", "the report's entries are not the failure frontier"
             elif aspect == "C19" and kind == "label":
                 key, text = "wrong-label", "an entry's statement about the expected side does not agree with the pattern as written"
+            elif aspect == "C05" and (kind == "actual-text" or (kind == "entries" and any(
+                    e[0] == x[0] and e[2] != x[2] and not any(y[0] == e[0] and y[2] == e[2] for y in c.expect[1]) for e in c.got[1] for x in c.expect[1]))):
+                key, text = "wrong-actual-text", "an entry's 'got' text is not the Debug form of the sub-value at that sub-pattern's path"
             if key:
                 found_input = True
                 ck.report("%s:%s" % (key, name), text + " (%s)" % what, dict(t3.describe(c), setup=getattr(c, "setup", "")))
